@@ -396,6 +396,13 @@ class World(object):
         if self.accepted_rerun and new_exec and x.kind == "unjustified":
             pass
         spec_t = self.p["tasks"].get(tid) or {}
+        # precise signature of a known finding: a with-items task inside a loop is visited again
+        # after its previous visit on this route failed (the stale staged entry is reused)
+        self.kf_items_loop = None
+        if new_exec and spec_t.get("with") is not None and L.cyc.get(tid):
+            prev = [e for e in L.execs if e is not x and e.task == tid and e.route == route and e.state == "done"]
+            if prev and prev[-1].task_status == "failed":
+                self.kf_items_loop = "KF-failed-items-task-revisited-in-loop"
         # -- context & rendered input (C06)
         if new_exec and x.ref is not None and not getattr(x, "ref_unknown", False):
             self.check_ctx(x, vals)
@@ -425,6 +432,7 @@ class World(object):
             x.state = "running"
             self.call("update_task_state", tid, route, events.ActionExecutionEvent(first))
             self.after_call("started")
+            x.rec_idx = self.snap["state"]["tasks"].get("%s__r%s" % (tid, route))
             started = 1
         self.offers.append((self.step, tid, route))
         self.rerun_offers_since += 1
@@ -461,6 +469,8 @@ class World(object):
             it["n"] = n
             it["results"] = [None] * (n or 0)
             it["exp_items"] = exp_items
+        if it.get("carried") is not None and "reoffer_ok" not in it:
+            it["reoffer_ok"] = set(range(it["n"] or 0)) - set(it["carried"])
         try:
             k = w.get("concurrency")
             if k is not None and not isinstance(k, int):
@@ -478,6 +488,7 @@ class World(object):
             x.state = "running"
             self.call("update_task_state", tid, route, events.ActionExecutionEvent("running"))
             self.after_call("started")
+            x.rec_idx = self.snap["state"]["tasks"].get("%s__r%s" % (tid, route))
             wfb = self.status
             self.call("update_task_state", tid, route, events.ActionExecutionEvent("succeeded", result=[]))
             self.after_call("completed")
@@ -522,6 +533,7 @@ class World(object):
             x.state = "running"
             self.call("update_task_state", tid, route, events.TaskItemActionExecutionEvent(i, "running"))
             self.after_call("started")
+            x.rec_idx = self.snap["state"]["tasks"].get("%s__r%s" % (tid, route))
             started += 1
         if it["k"] is not None and len(it["inflight"]) > it["k"]:
             self.report("C12", "window", "%d items of %s in flight, concurrency %d" % (len(it["inflight"]), x.key(), it["k"]))
@@ -785,8 +797,10 @@ class World(object):
         before = self.snap
         wfb = self.status
         treqs = None
+        known = set((self.snap["state"]["tasks"] or {}).keys()) if self.snap else set()
+        unknown = [r for r in (reqs or []) if "%s__r%s" % (r[0], r[1]) not in known]
         if reqs is not None:
-            treqs = [orequests.TaskRerunRequest(r[0], r[1], reset_items=bool(r[2])) for r in reqs]
+            treqs = [orequests.TaskRerunRequest.new(r[0], route=r[1], reset_items=bool(r[2])) for r in reqs]
         try:
             self.call("request_workflow_rerun", task_requests=treqs)
         except Rejected as r:
@@ -800,14 +814,17 @@ class World(object):
         self.after_call("rerun")
         if wfb not in lang.COMPLETED:
             self.report("C17", "admission", "rerun accepted while the workflow was %s" % wfb)
+        if unknown:
+            self.report("C17", "admission", "rerun accepted for task executions that do not exist: %r" % unknown)
         if self.status != "resuming":
             self.report("C17", "resuming", "accepted rerun left the workflow %s" % self.status)
         self.accepted_rerun = True
+        self.error_processed_while_not_canceling = False
+        self.rerun_selected = self.ledger.on_rerun(reqs, self.snap["state"], before["state"]["sequence"])
         self.rerun_from = wfb
         self.cancel_req = False
         self.pause_req = False
         self.ledger.cancel_requested = False
-        self.ledger.reruns += 1
         self.rerun_offers_since = 0
         self.terminal_seen = None
         self.rendered = False
@@ -891,10 +908,7 @@ class World(object):
             return
         for i, cx in enumerate(a["contexts"]):
             if cx != b["contexts"][i]:
-                f = self.p.get("_features") or set()
-                kf = "KF-dict-republish-deep-merge" if "dict_republish" in f else None
-                self.report("C18", "prefix", "stored context #%d changed after %s: %s" % (i, tag, first_diff(cx, b["contexts"][i])),
-                            tags=["dict_republish"] if kf else [], kf=kf)
+                self.report("C18", "prefix", "stored context #%d changed after %s: %s" % (i, tag, first_diff(cx, b["contexts"][i])))
         for i, r in enumerate(a["routes"]):
             if r != b["routes"][i]:
                 self.report("C18", "prefix", "route #%d changed after %s" % (i, tag))
@@ -996,6 +1010,7 @@ class World(object):
     last_request = None
     expect_release = None
     terminal_at_offer = None
+    kf_items_loop = None
     forced_failed = False
     held_back = 0
     failed_while_pausing = False
@@ -1035,6 +1050,7 @@ class World(object):
                 pass
 
     rerun_from = None
+    rerun_selected = None
 
     def kf_rerun_after_cancel(self):
         """Precise signature: a canceled workflow was rerun and, without any new cancel request,
@@ -1107,6 +1123,11 @@ class World(object):
         # precise recognition of the known merge finding: the observed context is exactly what the
         # as-built index-list merge yields, and differs from the causal expectation
         kf, tags = None, []
+        if self.kf_items_loop:
+            self.report("C06", "ctx_exact", "%s (with-items, revisited in a loop after a failed visit) rendered with a "
+                        "stale merged context: %r" % (x.key(), diffs[:3]), tags=["failed_with_items_revisited"],
+                        kf=self.kf_items_loop)
+            return
         asb = self.ledger.asbuilt_values(x.ref.idxs)
         f = self.p.get("_features") or set()
         branches = getattr(getattr(x, "credit", None), "branches", None) or []
@@ -1156,6 +1177,11 @@ class World(object):
                 self.report("C13", "delay_carried", "retry of %s offered with delay %r, configured %r" % (x.key(), got, exp))
             return
         d = spec_t.get("delay")
+        if self.kf_items_loop and (got or None) != (d if isinstance(d, int) else None):
+            self.report("C13", "delay_carried", "%s (with-items, revisited in a loop after a failed visit) offered with "
+                        "delay %r of the previous visit's retry" % (x.key(), got), tags=["failed_with_items_revisited"],
+                        kf=self.kf_items_loop)
+            return
         if d is None:
             exp = None
         else:
